@@ -121,10 +121,69 @@ def r1(prog, rep):
                          'no store controlled by both the WIFEXITED and the WEXITSTATUS test reaches a return value or an exit argument' % f.name)
             else:
                 s, t, sink = effect
-                rep.ok('C16.R1', '%s %s(&%s)@%s: WIFEXITED@%s WEXITSTATUS@%s -> %s=...@%s -> %s@%s' % (
-                    f.name, c.callee, loc[1], c.line, tests['WIFEXITED'][0].line, tests['WEXITSTATUS'][0].line, t[1], s.line,
-                    sink.op if sink.op == 'ret' else sink.callee, sink.line))
+                verdict = status_word_verdict(prog, f, c, loc, t)
+                if verdict[0]:
+                    rep.ok('C16.R1', '%s %s(&%s)@%s: WIFEXITED@%s WEXITSTATUS@%s -> %s=...@%s -> %s@%s; evaluated: %s' % (
+                        f.name, c.callee, loc[1], c.line, tests['WIFEXITED'][0].line, tests['WEXITSTATUS'][0].line, t[1], s.line,
+                        sink.op if sink.op == 'ret' else sink.callee, sink.line, verdict[1]))
+                else:
+                    rep.fail('C16.R1', k, where(c), 'the child-status test after %s() in %s has the wrong truth table: %s' % (c.callee, f.name, verdict[1]),
+                             replay_input='kill the m4 child with SIGKILL (e.g. M4=/path/to/script that does `kill -9 $$`): flex must not exit 0')
     return n
+
+# status words as wait() delivers them (glibc encoding): low 7 bits = terminating signal, 0x80 = core, bits 8..15 = exit code
+STATUS_FAIL = [(0x0100, 'exit(1)'), (0xff00, 'exit(255)'), (9, 'killed by SIGKILL'), (0x8b, 'SIGSEGV with core dump'), (15, 'killed by SIGTERM')]
+
+def _process_status(outcome):
+    """exit status of the process for an evaluation outcome: int, ('sym', ..) or None (path cannot continue)"""
+    if outcome[0] == 'ret': return outcome[1]
+    if outcome[0] == 'exit':
+        callee, av = outcome[1], outcome[2]
+        if callee in ('longjmp', '_longjmp', 'siglongjmp'):        # FLEX_EXIT(n) is longjmp(flex_main_jmp_buf, n + 1)
+            v = av[1] if len(av) > 1 else ('sym', '?')
+            return v - 1 if isinstance(v, int) else v
+        if callee in ('exit', '_exit', 'flexend'): return av[0] if av else ('sym', '?')
+        return 1                                                   # flexerror / lerr / flexfatal ...: error exits
+    return None
+
+def status_word_verdict(prog, f, call, status_loc, t):
+    """Concrete evaluation of f from the wait call: the call delivers status word w once, then reports no more children.
+    With the status variable t at its success baseline, word 0 must end in process status 0 and every failing word
+    (non-zero exit code, death by signal) in a non-zero process status on every path.  Returns (ok, text);
+    raises AnalysisBroken when the code cannot be evaluated."""
+    from common import AnalysisBroken
+    from genutil import MiniEval, EvalUnknown
+    skey = flow._freeze(status_loc); tkey = flow._freeze(t)
+    def run(w, t0):
+        seen = {'n': 0}
+        def hook(x, av, mem):
+            if x is call:
+                seen['n'] += 1
+                if seen['n'] == 1: mem[skey] = w; return 4242
+                return -1
+            return None
+        ev = MiniEval(prog, hook)
+        outs = ev.run(f, call.blk, call.idx, {}, {tkey: t0})
+        return [st for st in (_process_status(o) for o in outs) if st is not None]
+    try:
+        base = None; always_fail = False
+        for t0 in (0, 1, 2, -1):
+            sts = run(0, t0)
+            if sts and all(st == 0 for st in sts): base = t0; break
+            if sts and all(isinstance(st, int) and st != 0 for st in sts) and t0 in (0, 1): always_fail = True
+        if base is None:
+            if always_fail: return (False, 'a child that exited with status 0 makes %s end with a non-zero status' % f.name)
+            raise AnalysisBroken('C16.R1: cannot find the value of %s for which %s ends with status 0 after a child exited 0' % (t[1], f.name))
+        bad = []
+        for w, what in STATUS_FAIL:
+            sts = run(w, base)
+            if not sts or any(not isinstance(st, int) for st in sts):
+                raise AnalysisBroken('C16.R1: the process status of %s after a child %s is not a constant on some path' % (f.name, what))
+            if any(st == 0 for st in sts): bad.append('%s (status word 0x%04x) still ends in exit status 0' % (what, w))
+        if bad: return (False, '; '.join(bad))
+        return (True, 'word 0 -> 0; %s -> non-zero' % ', '.join('0x%04x' % w for w, _ in STATUS_FAIL))
+    except EvalUnknown as e:
+        raise AnalysisBroken('C16.R1: cannot evaluate %s from the wait call (%s)' % (f.name, e))
 
 # ================================================================ R2
 
@@ -969,7 +1028,7 @@ def r6(prog, rep, anchors=True):
 def controls(ctx):
     p = selftest_program(ctx, 'c16_controls.c')
     c = Collect(); r1(p, c)
-    expect_control(ctx, 'C16.R1', c, ['bad_wait_null:wait', 'bad_wait_ignored:wait', 'bad_wait_noeffect:waitpid'], must_hold=1)
+    expect_control(ctx, 'C16.R1', c, ['bad_wait_null:wait', 'bad_wait_ignored:wait', 'bad_wait_noeffect:waitpid', 'bad_wait_polarity:wait', 'bad_wait_exitcode_only:wait'], must_hold=2)
     c = Collect(); r4(p, c, anchors=False)
     expect_control(ctx, 'C16.R4', c, ['banned:strcat', 'banned:sprintf', 'banned:gets', 'bad_strcpy:strcpy', 'bad_strncpy_unterminated:strncpy',
                                       'bad_strncpy_count:strncpy', 'bad_snprintf_size:snprintf', 'bad_snprintf_heap:snprintf', 'bad_strncat:strncat'], must_hold=5)
